@@ -3,6 +3,10 @@ From Coq Require Import Arith Lia Ring ZArith List.
 From QV Require Import CRing Sums Quat Mat QMat NumpySem.
 From QVT Require Import Embed Glue.
 From QVM Require Import QsvdGlue.
+From Coq Require Import Reals Lra.
+From QV Require Import CRingR.
+From QVT Require Import EckartYoung EckartYoungR SVUnique.
+Close Scope R_scope.
 Import ListNotations.
 
 Section P.
@@ -27,6 +31,48 @@ Theorem C05_every4_picks (sr sigma : nat -> C) : (forall i c, c < 4 -> sr (4 * i
 Proof. exact (every4_picks C sr sigma). Qed.
 End P.
 
+
+Section V.
+Variable C : CRing.
+Notation qmat := (qmat C).
+(* the value of the truncation error, for every size, every number r of retained columns and every R <= r: the truncated triple
+   (leading R columns of U and V, leading R values) misses A = U diag(s) V^H by exactly the discarded values *)
+Theorem C05_truncation_error_value m n r R (U V : qmat) (s : nat -> C) : R <= r ->
+  meq r r (qmm m (qherm U) U) qmid -> meq r r (qmm n (qherm V) V) qmid ->
+  frob2 m n (qmsub (usv r U s V) (usv R U s V)) = sumR (r - R) (fun k => (s (R + k)%nat * s (R + k)%nat)%cr).
+Proof. intros HR HU HV. rewrite (eckart_young_value C m n r R U V s HR HU HV). exact (tail_sum C r R s HR). Qed.
+End V.
+
+(* ... and no matrix Q W with Q having p orthonormal columns (no matrix of rank <= p) is closer to A *)
+Theorem C05_truncation_is_optimal m n r p (U V Qm W : qmat RR) (s : nat -> R) : p <= r ->
+  meq r r (qmm m (qherm U) U) qmid -> meq r r (qmm n (qherm V) V) qmid -> meq p p (qmm m (qherm Qm) Qm) qmid ->
+  (forall k, k < r -> (0 <= s k)%R) -> (forall k l, k <= l -> l < r -> (s l <= s k)%R) ->
+  (frob2 m n (qmsub (@usv RR r U s V) (@usv RR p U s V)) <= frob2 m n (qmsub (@usv RR r U s V) (qmm p Qm W)))%R.
+Proof.
+  intros HR HU HV HQ H0 Hm. rewrite (eckart_young_value RR m n r p U V s HR HU HV).
+  exact (eckart_young_optimal m n r p U V Qm W s HR HU HV HQ H0 Hm).
+Qed.
+(* the hypotheses are satisfiable: U = V = I_3, s = (3, 2, 1), Q = the first column of the identity *)
+Example C05_optimality_hypotheses_hold :
+  meq 3 3 (qmm 3 (qherm (@qmid RR)) qmid) qmid /\ meq 1 1 (qmm 3 (qherm (@qmid RR)) qmid) qmid /\
+  (forall k, k < 3 -> (0 <= INR (3 - k))%R) /\ (forall k l, k <= l -> l < 3 -> (INR (3 - l) <= INR (3 - k))%R).
+Proof.
+  split; [|split; [|split]].
+  - rewrite (qherm_id RR 3). apply (qmm_id_l RR 3 3).
+  - intros i j Hi Hj. assert (i = 0) by lia. assert (j = 0) by lia. subst. vm_compute. f_equal; ring.
+  - intros. apply pos_INR.
+  - intros. apply le_INR. lia.
+Qed.
+(* the singular values are determined by the matrix: two factorisations with orthonormal columns and sorted non-negative values agree *)
+Theorem C05_singular_values_are_determined m n r (U V U' V' : qmat RR) (s s' : nat -> R) :
+  meq r r (qmm m (qherm U) U) qmid -> meq r r (qmm n (qherm V) V) qmid ->
+  meq r r (qmm m (qherm U') U') qmid -> meq r r (qmm n (qherm V') V') qmid ->
+  (forall k, (k < r)%nat -> (0 <= s k)%R) -> (forall k l, (k <= l)%nat -> (l < r)%nat -> (s l <= s k)%R) ->
+  (forall k, (k < r)%nat -> (0 <= s' k)%R) -> (forall k l, (k <= l)%nat -> (l < r)%nat -> (s' l <= s' k)%R) ->
+  meq m n (@usv RR r U s V) (@usv RR r U' s' V') ->
+  forall k, (k < r)%nat -> s k = s' k.
+Proof. exact (singular_values_unique m n r U V U' V' s s'). Qed.
+
 (* ... but the oracle's documented contract (orthogonal factors, A_r = U_r Sigma V_r^T) does not imply
    structure: for A = I_2 the answer U_r = V_r = P (rows 1 and 4 exchanged), Sigma = I_8 is a valid real
    SVD, and the contracted U = [[1, i], [0, 0]] is not unitary *)
@@ -49,3 +95,6 @@ Qed.
 Print Assumptions C05_structured_factor_is_unitary.
 Print Assumptions C05_structured_factors_reconstruct.
 Print Assumptions C05_unstructured_oracle_refuted.
+Print Assumptions C05_truncation_error_value.
+Print Assumptions C05_truncation_is_optimal.
+Print Assumptions C05_singular_values_are_determined.
